@@ -36,5 +36,9 @@ def handleFitRaise (st : St) (op : String) (j : Json) : Option (D (St × Json)) 
     return (st, ok (Json.mkObj [("guards", guards), ("hyp", Json.bool hyp),
       ("wfWhile", Json.bool (unplacedWfWhile S d f t sl)), ("model", Json.str outcome),
       -- `openPrefixOk_of_cut`: the non-leaf nodes of the slice have suffix-closed content
-      ("homog", Json.bool (S.homogKids sl.content)), ("homogSchema", Json.bool S.homogSchemaB)]))
+      ("homog", Json.bool (S.homogKids sl.content)), ("homogSchema", Json.bool S.homogSchemaB),
+      -- `fit_raises_only_at_sites`: the first state of the run in which a condition fails (wf, start site, end site)
+      ("bad", match requestBadState S d f t sl with
+        | some (w, a, b) => Json.arr #[Json.bool w, Json.bool a, Json.bool b]
+        | none => Json.null)]))
   | _ => none
